@@ -186,6 +186,7 @@ func ChunkStream(ctx context.Context, c Chunker, ws WriteStore, n int) (Index, e
 	// order, we calculate the checksum here before handing	them over to the
 	// workers for compression and storage. That could probablybe optimized further
 	var num int // chunk #, so we can re-assemble the index in the right order later
+	var interrupted bool
 loop:
 	for {
 		start, b, err := c.Next()
@@ -200,6 +201,7 @@ loop:
 		// Send it off for compression and storage
 		select {
 		case <-ctx.Done():
+			interrupted = true
 			break loop
 		case in <- chunkJob{num: num, start: start, b: b}:
 		}
@@ -209,6 +211,9 @@ loop:
 
 	if err := g.Wait(); err != nil {
 		return Index{}, err
+	}
+	if interrupted { // stopped early without a worker failing, the stream wasn't chunked to its end
+		return Index{}, Interrupted{}
 	}
 
 	// All the chunks have been processed and are stored in a map. Now build a
